@@ -47,7 +47,7 @@ PROBES = [
     "si_multi_block_delivery", "si_sub_block_delivery", "si_skip_across_deliveries", "empty_first", "empty_last",
     "n_zero", "no_deliveries",
 ]
-FAULT_KINDS = ["empty_delivery", "single_sample_delivery", "readonly_delivery"]
+FAULT_KINDS = ["empty_delivery", "single_sample_delivery", "readonly_delivery", "strided_delivery"]
 
 
 def warmup(tier=None):
@@ -223,6 +223,8 @@ def execute(scn, keep_trace=False):
             res.fault("single_sample_delivery")
         if mem == "ro":
             res.fault("readonly_delivery")
+        elif mem == "strided":
+            res.fault("strided_delivery")
         try:
             skip_before = getattr(comp, "_skip", 0)
         except Exception:
